@@ -26,7 +26,14 @@ NOTES = {
   "workflows is argued from the fact that the engine's decisions are local "
   "(one completed task, its clauses, the joins reachable from it) and the "
   "catalogue contains every clause kind and join kind; it is not machine "
-  "checked."),
+  "checked.  Beyond the catalogue: C01.G makes the *shape itself* a solver "
+  "choice (every forward-route direct workflow over 3 / 4 tasks, plain and "
+  "guarded routes, joins all / one / N), C01.R does the same for reverse "
+  "workflows (every 'requires' DAG over 4 / 5 tasks, every target) with a "
+  "dependency-cone reference and the invariant 'no task before the tasks it "
+  "requires succeeded', and C01.F injects a declared error at the k-th "
+  "expression evaluation / action start (k a solver choice) of a "
+  "policy-rich workflow: the run must still come to rest finished."),
  'C02': ('result independent of event order, timing, caches',
   "Two whole runs with equal outcomes are compared (C02.E): one in a "
   "solver-chosen order — also with the spec caches dropped before every event "
@@ -46,20 +53,28 @@ NOTES = {
   "runs that a started join has its prerequisites and nothing is created "
   "twice.  C04.3 covers what a single process cannot show: two engine "
   "processes creating the same join, and two refresh jobs of one join, with "
-  "solver-chosen statement interleaving."),
+  "solver-chosen statement interleaving.  Reverse workflows: the invariant "
+  "of C01.R (a task is created only after every task it requires is "
+  "SUCCESS) over all generated 'requires' DAGs."),
  'C05': ('a task sees exactly the data of its causal predecessors',
   "C05.E runs fan-out / fan-in data-flow shapes with the real YAQL evaluator: "
   "completion order, task id order and the listing order of the unordered "
   "upstream SELECT are solver variables; the join must see the value of the "
   "latest publisher on a causal path.  C05.4 decides the union of task-level "
   "and transition-level publish, C05.3 the documented lookup order over "
-  "symbolic layer presence in both expression syntaxes."),
+  "symbolic layer presence in both expression syntaxes.  C05.G: every "
+  "forward-route DAG over 4 tasks x every subset of publishers x every "
+  "listing order, against a causal reference (the value seen is that of a "
+  "maximal publisher among the causal ancestors)."),
  'C06': ('duplicates have the effect of one delivery',
   "C06.E duplicates any one message at any of the first 14–20 positions "
   "(sequentially: the copy arrives after the first was committed); C06.5 "
   "hands both copies to two engine processes at once; C06.3 repeats a start "
   "request with an id; C06.4 decides the executor's redelivery logic over "
-  "symbolic flags and outcome kinds."),
+  "symbolic flags and outcome kinds; C06.R rolls back an engine transaction "
+  "with a DBDeadlock at a solver-chosen statement of a solver-chosen "
+  "delivery: the retried (or transport-redelivered) handler must have the "
+  "effect of one execution."),
  'C07': ('with-items: once per item, within concurrency, ordered results',
   "One obligation, whole runs: item count, concurrency (absent / literal / "
   "expression), every item outcome, completion order, rerun reset flag and "
@@ -81,7 +96,11 @@ NOTES = {
   "Whole runs with the pause request at every position among the first 10–16 "
   "deliveries (and the `pause` engine command in front of a join); while "
   "PAUSED nothing is created (Explorer invariant); after resume the final "
-  "state and task states must equal the reference for an unpaused run."),
+  "state and task states must equal the reference for an unpaused run.  "
+  "C10.T: pause / resume commands addressed to the root or to one of two "
+  "sub-workflows (with-items and join shapes) at solver-chosen points: an "
+  "execution the operator holds paused stays PAUSED after every delivery, "
+  "and the released tree finishes like an unpaused run (found F29, F30)."),
  'C11': ('stop / cancel end the whole tree; late results change nothing',
   "Whole runs with a stop (state and position symbolic, optionally after a "
   "pause, on the root or on a sub-workflow, also while commands wait in the "
